@@ -256,6 +256,8 @@ def check_hierarchy(case):
 def _hier_case(draw):
     c = draw(_case(forms=("ketcol", "dm"), nmax=3))
     c["level2"] = draw(st.integers(0, 3)) == 0 and c["d"] == 4
+    if c["cplx"] and c["family"] == "generic" and draw(st.booleans()):
+        c["real_first"] = True  # kets of mixed dtype (seeded change C12-t1: the ket -> density-matrix buffer took kets[0].dtype)
     return c
 
 
@@ -297,6 +299,6 @@ SUBCHECKS = [
     SubCheck("povm_dual", check_povm_dual, _case, _nt, quick=240, thorough=4000, case_timeout=60),
     SubCheck("povm_primal", check_povm_primal, _case, _nt, quick=160, thorough=3000, case_timeout=60),
     SubCheck("laws", check_laws, _case, _nt, quick=160, thorough=3000, case_timeout=90),
-    SubCheck("hierarchy", check_hierarchy, _hier_case, _nt, quick=64, thorough=800, case_timeout=120),
+    SubCheck("hierarchy", check_hierarchy, _hier_case, _nt, quick=96, thorough=1200, case_timeout=120),
     SubCheck("no_mutation", check_no_mutation, lambda: _case(forms=("ketcol", "dm"), nmax=3), _nt_mut, quick=64, thorough=800, case_timeout=60),
 ]
